@@ -440,6 +440,8 @@ def step_harnesses(tier, seed, pid):
             combos.append(D + ('diagnostics', False, False, 'one', None))
         if pid == 'C02':
             combos.append(D + ('default', False, False, 2, None))
+        if pid == 'C19':
+            combos.append(D + ('regression-geom', False, False, 'one', None))
         if pid == 'C08':
             combos = [D + ('default', False, True, 'one', None), D + ('default', False, False, 'one', 'raise')]
     else:
@@ -457,7 +459,7 @@ def step_harnesses(tier, seed, pid):
             'C18': [one('default'), one('diagnostics'), one('soft-restarts'), one('growing-reduce-delta', G), one('growing-safety-geom', G),
                     one('noise'), one('default', h=True), one('soft-restarts-increase-npt')],
             'C01': [one('default'), one('growing', G), one('regression-momentum'), one('soft-restarts'), one('default', (2, 1, 3, 3))],
-            'C19': [one('default'), one('growing-perturb', G), one('regression-momentum'), one('soft-restarts-increase-npt'), one('growing', G)],
+            'C19': [one('default'), one('regression-geom'), one('growing-perturb', G), one('regression-momentum'), one('soft-restarts-increase-npt'), one('growing', G)],
             'C11': [one('default'), one('soft-restarts'), one('hard-restarts')],
             'C08': [one('default', xr=True), one('default', fault='raise'), one('soft-restarts', xr=True), one('noise', xr=True),
                     one('default', xr=True, ns=2), one('default', h=True, xr=True)],
